@@ -37,7 +37,7 @@ Definition raw_model_bad (c : raw_case) : bool :=
   negb (entries_eqb es outs && (k =? err)).
 
 (** * Rotation and GC histories *)
-Inductive hop := HLog (id len : Z) | HSetMax (m : Z) | HGc (bound : Z) | HSnap.
+Inductive hop := HLog (id len : Z) | HSetMax (m : Z) | HGc (bound : Z) | HSetSync (b : bool) | HSnap | HPeek.
 
 (** a file as observed: (time stamp of the name, size, user message ids) *)
 Definition ofile := (Z * Z * list Z)%type.
@@ -47,7 +47,7 @@ Record hist_case := mkHist {
   hc_max0 : Z;                    (* LogFileMaxSize at the start *)
   hc_planted : list (Z * Z);      (* files put in the directory beforehand: stamp, size *)
   hc_ops : list hop;
-  hc_snaps : list (list ofile);   (* the directory, oldest first, after every HSnap and HGc *)
+  hc_snaps : list (list ofile);   (* the directory, oldest first, after every HSnap, HPeek and HGc *)
   hc_fetch : option (list Z)      (* FetchEntriesFromFiles at the end, chronological *)
 }.
 
@@ -61,7 +61,9 @@ Definition to_rop (o : hop) : rop :=
   | HLog id len => RLog model_now model_now id len
   | HSetMax m => RSetMax m
   | HGc b => RGc b
+  | HSetSync b => RSetSync b
   | HSnap => RSnap
+  | HPeek => RPeek
   end.
 
 Fixpoint osnap_eqb (a : list (Z * list Z)) (b : list ofile) : bool :=
@@ -130,7 +132,8 @@ Fixpoint hist_walk (prev : list ofile) (pending : list Z) (ops : list hop) (snap
   | [] => match snaps with [] => true | _ => false end
   | HLog id _ :: tl => hist_walk prev (pending ++ [id]) tl snaps
   | HSetMax _ :: tl => hist_walk prev pending tl snaps
-  | HSnap :: tl =>
+  | HSetSync _ :: tl => hist_walk prev pending tl snaps   (* the mode does not change what must be read back *)
+  | (HSnap | HPeek) :: tl =>      (* HPeek: only issued in sync mode, where nothing may be buffered *)
       match snaps with
       | sn :: stl =>
           list_eqb Z.eqb (ids_of sn) (ids_of prev ++ pending) && stamps_increasing sn && hist_walk sn [] tl stl
